@@ -24,6 +24,8 @@ pub struct OracleState {
     /// (party, group, epoch): the party crashed with unwritten private sends in that epoch, so its
     /// sender ratchet rolled back and receivers may legitimately reject what it sends afterwards
     pub rolled_back: BTreeSet<(usize, usize, u64)>,
+    pub twins: BTreeMap<(usize, usize), Twin>,
+    pub at_write: BTreeMap<(usize, usize), Vec<(&'static str, Vec<u8>)>>,
 }
 
 #[derive(Default)]
@@ -81,7 +83,11 @@ pub fn diff_states(
                                 }
                             }
                             None => {
-                                let disk = store.view(gid).epochs.get(id).cloned();
+                                let disk = store
+                                    .view(gid)
+                                    .epochs
+                                    .get(id)
+                                    .and_then(|d| mls_rs::group::verif_hooks::canonical_epoch_record(d).ok());
                                 if disk.as_ref() != Some(bytes) {
                                     ok = false;
                                 }
@@ -161,9 +167,11 @@ pub fn check_unchanged(
     let prop = w.cfg.property.clone();
     if w.known.iter().any(|k| *k == signature) {
         // a recorded finding: note it, undo the damage so it does not cascade, carry on
-        w.ext.known_hits.push(signature);
-        if let Some(c) = pre.clone {
-            w.mem(p, g).group = Some(c);
+        w.ext.known_hits.push(signature.clone());
+        if !crate::known::no_restore(&signature) {
+            if let Some(c) = pre.clone {
+                w.mem(p, g).group = Some(c);
+            }
         }
         return Ok(());
     }
@@ -176,6 +184,407 @@ pub fn check_unchanged(
             pre.what, diffs
         ),
     ))
+}
+
+/// stored bytes in canonical form (the ratchet key history inside a snapshot or epoch record is written in
+/// hash-map iteration order, so equal states do not always give equal stored bytes)
+pub fn canon_view(mut v: crate::seams::StoredView) -> crate::seams::StoredView {
+    if let Some(s) = &v.state {
+        if let Ok(c) = mls_rs::group::verif_hooks::canonical_snapshot(s) {
+            v.state = Some(c);
+        }
+    }
+    for (_, e) in v.epochs.iter_mut() {
+        if let Ok(c) = mls_rs::group::verif_hooks::canonical_epoch_record(e) {
+            *e = c;
+        }
+    }
+    v
+}
+
+/// C06: a twin of party p's membership in group g: loaded from a fork of p's disk by a fresh client, then
+/// driven in lock-step with the original (every library call on the original is repeated on the twin).
+pub struct Twin {
+    pub group: SimGroup,
+    pub gstore: crate::seams::SimGroupStorage,
+    pub kpstore: crate::seams::SimKpStore,
+    pub ctx: Arc<crate::crypto::CryptoCtx>,
+    pub since_step: u32,
+    pub ops: u32,
+}
+
+/// every library call of the simulator on a member goes through here: provider-fault enumeration (C15 / C04)
+/// first, then the same call is repeated on the member's twin, if it has one (C06)
+pub fn lib_call<T>(
+    w: &mut World,
+    p: usize,
+    g: Option<usize>,
+    what: &str,
+    mut call: impl FnMut(&mut World) -> VResult<Result<T, MlsError>>,
+) -> VResult<Result<T, MlsError>> {
+    let r = faulted(w, p, g, what, &mut call)?;
+    let Some(g) = g else { return Ok(r) };
+    if !w.ext.twins.contains_key(&(p, g)) {
+        return Ok(r);
+    }
+    if w.mem_ref(p, g).map(|m| m.group.is_none()).unwrap_or(true) {
+        return Ok(r);
+    }
+    let prop = w.cfg.property.clone();
+    let mut twin = w.ext.twins.remove(&(p, g)).unwrap();
+    if what == "commit" && w.parties[p].mems[g].cached.len() >= 2 {
+        // the order of by-reference proposals in a commit follows the iteration order of a randomly keyed
+        // hash map, which legitimately differs between two objects: the twin cannot follow from here
+        w.stats.probe("twin-dropped:proposal-order-not-reproducible");
+        return Ok(r);
+    }
+    // run the same call on the twin
+    let orig = w.parties[p].mems[g].group.take();
+    w.parties[p].mems[g].group = Some(twin.group);
+    let rt = call(w);
+    twin.group = w.parties[p].mems[g].group.take().expect("twin group");
+    w.parties[p].mems[g].group = orig;
+    let rt = rt?;
+    twin.ops += 1;
+    w.stats.check("twin-lockstep");
+    if r.is_ok() != rt.is_ok() {
+        return Err(Violation::new(
+            &prop,
+            "reloaded-twin-lockstep",
+            format!("twin-outcome-differs:{what}"),
+            format!(
+                "P{p}: {what} returned {} on the original and {} on the twin that was loaded from storage at step {}",
+                if r.is_ok() { "Ok" } else { "Err" },
+                if rt.is_ok() { "Ok" } else { "Err" },
+                twin.since_step
+            ),
+        ));
+    }
+    let a = w.parties[p].mems[g].group.as_ref().and_then(|x| h1(x).ok());
+    let b = h1(&twin.group).ok();
+    if let (Some(a), Some(b)) = (a, b) {
+        let mut d = diff_states(&a, &b, None);
+        d.retain(|c| *c != "repo_kp_removal");
+        if !d.is_empty() {
+            return Err(Violation::new(
+                &prop,
+                "reloaded-twin-lockstep",
+                format!("twin-diverged:{}:{what}", d.join("+")),
+                format!(
+                    "P{p}: after {what} the member and its twin (loaded from storage at step {}, {} operations ago) differ in {:?} [{}]",
+                    twin.since_step,
+                    twin.ops,
+                    d,
+                    d.iter()
+                        .map(|c| {
+                            let x = a.iter().find(|(n, _)| n == c).map(|(_, v)| v.clone()).unwrap_or_default();
+                            let y = b.iter().find(|(n, _)| n == c).map(|(_, v)| v.clone()).unwrap_or_default();
+                            let at = x.iter().zip(y.iter()).position(|(u, v)| u != v).unwrap_or(x.len().min(y.len()));
+                            format!("{c}: len {} vs {}, first difference at byte {at}", x.len(), y.len())
+                        })
+                        .collect::<Vec<_>>()
+                        .join("; ")
+                ),
+            ));
+        }
+    }
+    if what == "write_to_storage" && r.is_ok() {
+        let gid = w.groups[g].gid.clone();
+        let va = canon_view(w.parties[p].gstore.view(&gid));
+        let vb = canon_view(twin.gstore.view(&gid));
+        if va != vb {
+            return Err(Violation::new(
+                &prop,
+                "reloaded-twin-lockstep",
+                "twin-disk-differs".into(),
+                format!(
+                    "P{p}: after write_to_storage the stored history of the member and of its twin differ: epochs {:?} vs {:?}, snapshot equal = {}",
+                    va.epochs.keys().collect::<Vec<_>>(),
+                    vb.epochs.keys().collect::<Vec<_>>(),
+                    va.state == vb.state
+                ),
+            ));
+        }
+    }
+    w.ext.twins.insert((p, g), twin);
+    Ok(r)
+}
+
+/// after a successful write: (1) what a fresh client loads from a fork of the disk must equal the member,
+/// (2) remember the state for the crash oracle, (3) possibly keep the loaded group as a lock-step twin
+pub fn c06_after_write(w: &mut World, p: usize, g: usize) -> VResult<()> {
+    if !w.cfg.oracle("restore") {
+        return Ok(());
+    }
+    let prop = w.cfg.property.clone();
+    let gid = w.groups[g].gid.clone();
+    let saved = {
+        let group = w.parties[p].mems[g].group.as_ref().unwrap();
+        h1(group).map_err(|e| Violation::new(&prop, "restore", "h1".into(), format!("{e:?}")))?
+    };
+    w.ext.at_write.insert((p, g), saved.clone());
+    // fork the whole party world: stores and crypto PRNG
+    let party = &w.parties[p];
+    let faults: crate::seams::Faults = Default::default();
+    let gstore = party.gstore.fork(faults.clone());
+    let kpstore = party.kpstore.fork(faults.clone());
+    let pskstore = party.pskstore.fork(faults.clone());
+    let ctx = party.ctx.fork();
+    let crypto = party.crypto.with_ctx(ctx.clone());
+    let client = make_client(
+        &crypto,
+        &party.identity,
+        &party.rules,
+        &gstore,
+        &kpstore,
+        &pskstore,
+        &party.signing_identity,
+        &party.signer,
+        w.suite,
+    );
+    let loaded = guarded(&prop, "load_group(fork)", || client.load_group(&gid))?;
+    w.stats.check("load-equals-saved");
+    let loaded = match loaded {
+        Ok(l) => l,
+        Err(e) => {
+            return Err(Violation::new(
+                &prop,
+                "restore",
+                format!("load-after-write-failed:{}", err_class(&e)),
+                format!("P{p}: load_group on a copy of the disk right after write_to_storage failed: {e:?}"),
+            ))
+        }
+    };
+    let lh = h1(&loaded).map_err(|e| Violation::new(&prop, "restore", "h1".into(), format!("{e:?}")))?;
+    // `repo_kp_removal` (the reference of the key package used to join) is not part of a snapshot: it is spent
+    // after the first write and only makes later writes repeat a no-op deletion
+    let mut d = diff_states(&saved, &lh, None);
+    d.retain(|c| *c != "repo_kp_removal");
+    if !d.is_empty() {
+        return Err(Violation::new(
+            &prop,
+            "loaded-equals-saved",
+            format!("loaded-differs:{}", d.join("+")),
+            format!(
+                "P{p}: the group loaded from storage differs from the group that was saved in component(s) {:?} (pending commit {}, cached proposals {})",
+                d,
+                w.parties[p].mems[g].pending.is_some(),
+                w.parties[p].mems[g].cached.len()
+            ),
+        ));
+    }
+    if w.parties[p].mems[g].pending.is_some() {
+        w.stats.probe("reload-with-pending-commit");
+    }
+    if !w.parties[p].mems[g].cached.is_empty() {
+        w.stats.probe("reload-with-cached-proposals");
+    }
+    // lock-step twin (kept for a limited number of members per world)
+    let max_twins = w.cfg.knob("twins").unwrap_or(0) as usize;
+    if !w.ext.twins.contains_key(&(p, g)) && w.ext.twins.len() < max_twins {
+        w.stats.probe("twin-created");
+        w.ext.twins.insert(
+            (p, g),
+            Twin {
+                group: loaded,
+                gstore,
+                kpstore,
+                ctx,
+                since_step: w.step_no,
+                ops: 0,
+            },
+        );
+    }
+    Ok(())
+}
+
+pub fn c06_after_reload(w: &mut World, p: usize, g: usize) -> VResult<()> {
+    if !w.cfg.oracle("restore") {
+        return Ok(());
+    }
+    let prop = w.cfg.property.clone();
+    // the twin mirrors a process that did not crash: it no longer corresponds to this member
+    w.ext.twins.remove(&(p, g));
+    let Some(want) = w.ext.at_write.get(&(p, g)).cloned() else {
+        return Ok(());
+    };
+    let got = {
+        let group = w.parties[p].mems[g].group.as_ref().unwrap();
+        h1(group).map_err(|e| Violation::new(&prop, "restore", "h1".into(), format!("{e:?}")))?
+    };
+    w.stats.check("crash-reload-equals-last-write");
+    let mut d = diff_states(&want, &got, None);
+    d.retain(|c| *c != "repo_kp_removal");
+    if !d.is_empty() {
+        return Err(Violation::new(
+            &prop,
+            "crash-reload-equals-last-write",
+            format!("reload-differs:{}", d.join("+")),
+            format!("P{p}: after a crash load_group returned a state that differs from the last written one in {:?}", d),
+        ));
+    }
+    Ok(())
+}
+
+/// what the disk of party p holds for group g (group store view + key packages present)
+pub fn disk_view(w: &World, p: usize, g: Option<usize>) -> (Option<crate::seams::StoredView>, Vec<Vec<u8>>) {
+    let gv = g.map(|g| w.parties[p].gstore.view(&w.groups[g].gid));
+    (gv, w.parties[p].kpstore.present_ids())
+}
+
+/// C15 (and the A-ID-ERR part of C04): run one library operation of party p under injected provider
+/// faults. With the `storage-faults` oracle every storage call index k of the operation is failed in turn,
+/// one failed attempt after the other on the same member (so every attempt starts from the state the
+/// previous failed attempt left behind): each faulted attempt must return Err and leave the member and
+/// its disk exactly as before; the first attempt in which no fault fires is the fault-free execution whose
+/// result the run continues with. For operations that do not write to disk the fault-free execution is
+/// then repeated from the saved pre-operation member and must give the identical state ("same state as a
+/// run without the fault"). The party's crypto PRNG is rewound before every attempt (DESIGN §6.C15).
+pub fn faulted<T>(
+    w: &mut World,
+    p: usize,
+    g: Option<usize>,
+    what: &str,
+    mut call: impl FnMut(&mut World) -> VResult<Result<T, MlsError>>,
+) -> VResult<Result<T, MlsError>> {
+    let storage = w.cfg.oracle("storage-faults");
+    let identity = w.cfg.oracle("identity-faults");
+    if !storage && !identity {
+        return call(w);
+    }
+    let prop = w.cfg.property.clone();
+    let kind = if storage { "S-ERR" } else { "A-ID-ERR" };
+    let r0 = w.parties[p].ctx.get_prng();
+    let live_g = g.filter(|g| w.mem_ref(p, *g).map(|m| m.group.is_some()).unwrap_or(false));
+    let s0 = live_g.and_then(|g| w.parties[p].mems[g].group.as_ref().and_then(|x| h1(x).ok()));
+    let g0 = live_g.and_then(|g| w.parties[p].mems[g].group.clone());
+    let d0 = disk_view(w, p, g);
+    let max_k = w.cfg.knob("max-fault-index").unwrap_or(16) as u32;
+    // sampled mode (identity faults in C04): a single fault index drawn from the step hash
+    let only = w
+        .cfg
+        .knob("sample-faults")
+        .map(|m| (crate::prng::mix(&[w.seed, w.step_no as u64, 0xfa17]) % m.max(1)) as u32);
+    let mut k = 0u32;
+    loop {
+        let plan: Vec<u32> = match only {
+            Some(o) if k == 0 => vec![o],
+            Some(_) => vec![],
+            None if k <= max_k => vec![k],
+            None => vec![],
+        };
+        if storage {
+            crate::seams::faults_begin(&w.parties[p].faults, &plan);
+        } else {
+            let mut c = w.parties[p].identity.ctl.lock().unwrap();
+            c.counting = true;
+            c.calls = 0;
+            c.fired = 0;
+            c.fail_at = plan.iter().copied().collect();
+        }
+        w.parties[p].ctx.set_prng(r0.clone());
+        let r = call(w);
+        let (calls, fired, log) = if storage {
+            crate::seams::faults_end(&w.parties[p].faults)
+        } else {
+            let mut c = w.parties[p].identity.ctl.lock().unwrap();
+            c.counting = false;
+            c.fail_at.clear();
+            (c.calls, c.fired, vec![])
+        };
+        let r = r?;
+        k += 1;
+        if fired == 0 {
+            // the fault-free execution
+            *w.stats
+                .probes
+                .entry(format!("provider-calls:{what}:{calls}"))
+                .or_default() += 1;
+            let wrote = disk_view(w, p, g) != d0;
+            if r.is_ok() && !wrote && k > 1 {
+                if let (Some(g), Some(g0)) = (live_g, g0) {
+                    // reference: the same operation from the saved pre-operation member, no fault ever injected
+                    let after_faults = w.parties[p].mems[g].group.as_ref().and_then(|x| h1(x).ok());
+                    let keep = w.parties[p].mems[g].group.take();
+                    w.parties[p].mems[g].group = Some(g0);
+                    let prng_after = w.parties[p].ctx.get_prng();
+                    w.parties[p].ctx.set_prng(r0.clone());
+                    let r_ref = call(w)?;
+                    let reference = w.parties[p].mems[g].group.as_ref().and_then(|x| h1(x).ok());
+                    w.parties[p].mems[g].group = keep;
+                    w.parties[p].ctx.set_prng(prng_after);
+                    w.stats.check("same-as-fault-free-run");
+                    if let (Some(a), Some(b), true) = (after_faults, reference, r_ref.is_ok()) {
+                        let d = diff_states(&b, &a, None);
+                        if !d.is_empty() {
+                            return Err(Violation::new(
+                                &prop,
+                                "same-state-as-fault-free-run",
+                                format!("differs-from-fault-free:{}:{what}", d.join("+")),
+                                format!(
+                                    "P{p}: after {} failed attempt(s) the repeated {what} succeeded but ends in a different state than a run without the fault: components {:?}",
+                                    k - 1,
+                                    d
+                                ),
+                            ));
+                        }
+                    }
+                }
+            }
+            return Ok(r);
+        }
+        // a fault fired in this attempt
+        w.stats.fault(kind);
+        let site = log
+            .get(plan[0] as usize)
+            .copied()
+            .unwrap_or(if storage { "?" } else { "identity" });
+        *w.stats.probes.entry(format!("fault-site:{what}:{site}")).or_default() += 1;
+        match &r {
+            Ok(_) => {
+                return Err(Violation::new(
+                    &prop,
+                    "provider-error-surfaces",
+                    format!("error-swallowed:{what}:{site}"),
+                    format!(
+                        "P{p}: {what} returned Ok although {kind} was injected at call {plan:?} ({site}): the provider error was swallowed"
+                    ),
+                ));
+            }
+            Err(e) => {
+                let cls = err_class(e);
+                w.ev(format!("  fault {kind}{plan:?} at {site} in {what} of P{p}: err {cls}"));
+                if let (Some(g), Some(before)) = (live_g, s0.clone()) {
+                    let pre = Pre {
+                        state: Some(before),
+                        clone: g0.clone(),
+                        disk: None,
+                        what: format!("{what} with {kind} at call {plan:?} ({site})"),
+                    };
+                    check_unchanged(w, p, g, pre, &format!("fault:{what}:{site}"), &cls, String::new())?;
+                }
+                let d1 = disk_view(w, p, g);
+                if d1 != d0 {
+                    let sig = format!("disk-changed:{what}:{site}");
+                    if w.known.iter().any(|k| *k == sig) {
+                        w.ext.known_hits.push(sig);
+                    } else {
+                        return Err(Violation::new(
+                            &prop,
+                            "disk-unchanged-after-error",
+                            sig,
+                            format!(
+                                "P{p}: {what} returned Err({cls}) after {kind} at call {plan:?} ({site}) but the stored history / key-package store changed: group view equal={}, key packages {} -> {}",
+                                d1.0 == d0.0,
+                                d0.1.len(),
+                                d1.1.len()
+                            ),
+                        ));
+                    }
+                }
+            }
+        }
+    }
 }
 
 pub fn gce_list(v: u8) -> ExtensionList {
@@ -347,7 +756,86 @@ pub fn do_replay(_w: &mut World, _p: usize, _g: usize, _msg: u64) -> VResult<boo
 pub fn do_special(w: &mut World, kind: &str, a: u64, b: u64, c: u64) -> VResult<bool> {
     match kind {
         "byz" => do_byz_commit(w, a as usize, 0, b as u8, c as u8),
+        "apply_detached" => do_apply_detached(w, a as usize, 0, b),
         _ => Ok(false),
+    }
+}
+
+/// C11: p applies the b-th set of detached commit secrets it holds. Secrets of the commit the DS picked for
+/// p's current epoch are the genuine successor (must apply and give the canonical state); secrets made in an
+/// older epoch are stale and must be refused with the member unchanged.
+pub fn do_apply_detached(w: &mut World, p: usize, g: usize, k: u64) -> VResult<bool> {
+    if !w.live(p, g) || w.parties[p].mems[g].detached.is_empty() {
+        return Ok(false);
+    }
+    let prop = w.cfg.property.clone();
+    let n = w.parties[p].mems[g].detached.len();
+    let (cid, secrets) = w.parties[p].mems[g].detached[k as usize % n].clone();
+    let epoch = w.epoch_of(p, g).unwrap();
+    let msg = w.msgs[&cid].clone();
+    let winner_here = w.groups[g].log.get(epoch as usize) == Some(&cid);
+    let stale = msg.epoch < epoch;
+    if !winner_here && !stale {
+        // made for the current epoch but not (yet) chosen by the DS: the library cannot know, the application must not apply it
+        return Ok(false);
+    }
+    let pre = capture(w, p, g, "apply_detached_commit");
+    let mut group = w.parties[p].mems[g].group.take().unwrap();
+    let r = guarded(&prop, "apply_detached_commit", || {
+        let s = mls_rs::group::CommitSecrets::from_bytes(&secrets)?;
+        group.apply_detached_commit(s)
+    });
+    w.parties[p].mems[g].group = Some(group);
+    let r = r?;
+    w.stats.op("apply_detached");
+    match (r, stale) {
+        (Ok(_), true) => Err(Violation::new(
+            &prop,
+            "stale-detached-commit-refused",
+            "stale-detached-commit-applied".into(),
+            format!(
+                "P{p} at epoch {epoch} applied detached commit secrets of commit {cid}, which was made in epoch {}: the member is now on a fork",
+                msg.epoch
+            ),
+        )),
+        (Err(e), true) => {
+            let cls = err_class(&e);
+            w.ev(format!("apply-detached P{p} stale id={cid} err {cls}"));
+            w.stats.probe("stale-detached-refused");
+            check_unchanged(w, p, g, pre, "apply-detached-stale", &cls, String::new())?;
+            w.parties[p].mems[g].detached.retain(|(c, _)| *c != cid);
+            Ok(true)
+        }
+        (Ok(desc), false) => {
+            w.ev(format!("apply-detached P{p} id={cid} ok"));
+            w.stats.probe("detached-applied");
+            w.parties[p].mems[g].detached.retain(|(c, _)| *c != cid);
+            let m = w.mem(p, g);
+            m.pending = None;
+            m.cached.clear();
+            after_commit_processed(w, p, g, cid, Pre::default(), &desc)?;
+            if matches!(desc.effect, mls_rs::group::CommitEffect::ReInit(_)) {
+                w.groups[g].reinit_at = Some(epoch);
+                return Ok(true);
+            }
+            let ne = w.epoch_of(p, g).unwrap();
+            if ne != epoch + 1 {
+                return Err(Violation::new(
+                    &prop,
+                    "epoch-step",
+                    "epoch-not-plus-one".into(),
+                    format!("P{p} went from epoch {epoch} to {ne} by applying a detached commit"),
+                ));
+            }
+            w.reached_epoch(p, g, "detached-commit")?;
+            Ok(true)
+        }
+        (Err(e), false) => Err(Violation::new(
+            &prop,
+            "liveness",
+            format!("detached-commit-refused:{}", err_class(&e)),
+            format!("P{p} could not apply the detached secrets of its own winning commit {cid}: {e:?}"),
+        )),
     }
 }
 
@@ -490,13 +978,67 @@ pub fn after_failed_op(
 }
 
 pub fn after_commit_built(
-    _w: &mut World,
-    _p: usize,
-    _g: usize,
-    _id: u64,
-    _pre: Pre,
+    w: &mut World,
+    p: usize,
+    g: usize,
+    id: u64,
+    pre: Pre,
     _out: &CommitOutput,
 ) -> VResult<()> {
+    if !w.cfg.oracle("pending-model") {
+        return Ok(());
+    }
+    let prop = w.cfg.property.clone();
+    let msg = w.msgs[&id].clone();
+    let detached = msg.spec.as_ref().map(|s| s.detached).unwrap_or(false);
+    let group = w.parties[p].mems[g].group.as_ref().unwrap();
+    w.stats.check("pending-commit-leaves-group-unchanged");
+    if group.has_pending_commit() == detached {
+        return Err(Violation::new(
+            &prop,
+            "pending-commit-flag",
+            format!("has-pending-{}-after-build-detached-{detached}", group.has_pending_commit()),
+            format!("P{p}: has_pending_commit() = {} right after building a commit (detached = {detached})", group.has_pending_commit()),
+        ));
+    }
+    if let Some(before) = &pre.state {
+        let after = h1(group).map_err(|e| {
+            Violation::new(&prop, "pending-model", "h1".into(), format!("{e:?}"))
+        })?;
+        let mut d = diff_states(before, &after, None);
+        d.retain(|c| *c != "pending_commit" && !(msg.private && *c == "epoch_secrets"));
+        if !d.is_empty() {
+            return Err(Violation::new(
+                &prop,
+                "pending-commit-leaves-group-unchanged",
+                format!("commit-build-changed:{}", d.join("+")),
+                format!(
+                    "P{p}: building commit {id} (detached={detached}) changed more than the pending-commit slot: {:?}",
+                    d
+                ),
+            ));
+        }
+    }
+    if !detached {
+        // a second commit must be refused while one is pending (on a clone: the member itself is not touched)
+        let mut c = group.clone();
+        let now = w.now();
+        let r = guarded(&prop, "commit(second)", || c.commit_builder().commit_time(now).build())?;
+        match r {
+            Err(MlsError::ExistingPendingCommit) => {}
+            other => {
+                return Err(Violation::new(
+                    &prop,
+                    "single-pending-commit",
+                    "second-commit-not-refused".into(),
+                    format!(
+                        "P{p}: a second commit while one is pending returned {:?} instead of ExistingPendingCommit",
+                        other.map(|_| "Ok").map_err(|e| err_class(&e))
+                    ),
+                ));
+            }
+        }
+    }
     Ok(())
 }
 
@@ -512,7 +1054,9 @@ pub fn after_sent(_w: &mut World, _p: usize, _g: usize, _id: u64) -> VResult<()>
     Ok(())
 }
 
-pub fn after_join(_w: &mut World, _p: usize, _g: usize, _how: &str) -> VResult<()> {
+pub fn after_join(w: &mut World, p: usize, g: usize, _how: &str) -> VResult<()> {
+    w.ext.twins.remove(&(p, g));
+    w.ext.at_write.remove(&(p, g));
     Ok(())
 }
 
@@ -630,13 +1174,28 @@ pub fn expect_msg(w: &World, p: usize, g: usize, id: u64) -> Expect {
 }
 
 pub fn after_commit_processed(
-    _w: &mut World,
-    _p: usize,
-    _g: usize,
-    _cid: u64,
+    w: &mut World,
+    p: usize,
+    g: usize,
+    cid: u64,
     _pre: Pre,
     _desc: &CommitMessageDescription,
 ) -> VResult<()> {
+    // (a member that the commit removes does not enter the new epoch: its object simply stays behind)
+    let entered = !matches!(_desc.effect, mls_rs::group::CommitEffect::Removed { .. });
+    if w.cfg.oracle("pending-model") && entered {
+        if let Some(group) = w.parties[p].mems[g].group.as_ref() {
+            w.stats.check("no-pending-after-epoch-change");
+            if group.has_pending_commit() {
+                return Err(Violation::new(
+                    &w.cfg.property,
+                    "pending-discarded-by-epoch-change",
+                    "pending-survives-commit".into(),
+                    format!("P{p}: still has a pending commit after commit {cid} moved it to a new epoch"),
+                ));
+            }
+        }
+    }
     Ok(())
 }
 
@@ -703,14 +1262,40 @@ pub fn after_accepted(_w: &mut World, _p: usize, _g: usize, _id: u64, _pre: Pre)
     Ok(())
 }
 
-pub fn after_write(_w: &mut World, _p: usize, _g: usize, _pre: Pre) -> VResult<()> {
-    Ok(())
+pub fn after_write(w: &mut World, p: usize, g: usize, _pre: Pre) -> VResult<()> {
+    c06_after_write(w, p, g)
 }
 
-pub fn after_reload(_w: &mut World, _p: usize, _g: usize) -> VResult<()> {
-    Ok(())
+pub fn after_reload(w: &mut World, p: usize, g: usize) -> VResult<()> {
+    c06_after_reload(w, p, g)
 }
 
-pub fn after_clear_pending(_w: &mut World, _p: usize, _g: usize, _pre: Pre) -> VResult<()> {
+pub fn after_clear_pending(w: &mut World, p: usize, g: usize, pre: Pre) -> VResult<()> {
+    if !w.cfg.oracle("pending-model") {
+        return Ok(());
+    }
+    let prop = w.cfg.property.clone();
+    let group = w.parties[p].mems[g].group.as_ref().unwrap();
+    if group.has_pending_commit() {
+        return Err(Violation::new(
+            &prop,
+            "clear-pending",
+            "pending-after-clear".into(),
+            format!("P{p}: has_pending_commit() is still true after clear_pending_commit()"),
+        ));
+    }
+    if let Some(before) = &pre.state {
+        let after = h1(group).unwrap_or_default();
+        let mut d = diff_states(before, &after, None);
+        d.retain(|c| *c != "pending_commit");
+        if !d.is_empty() {
+            return Err(Violation::new(
+                &prop,
+                "clear-pending",
+                format!("clear-changed:{}", d.join("+")),
+                format!("P{p}: clear_pending_commit() changed {:?}", d),
+            ));
+        }
+    }
     Ok(())
 }
